@@ -92,7 +92,7 @@ def run(ctx):
                                                          'mismatches': len(table_mism)}
     # ---------------- corr-S: traces and states
     n_prog = 400 if quick else 8000
-    progs = {'p%d' % i: gen_program(rng, dict(hw=True, bait=(i % 3 == 0), signed=False, shorts=(i % 2 == 0), max_stmts=8)) for i in range(n_prog)}
+    progs = {'p%d' % i: gen_program(rng, dict(hw=True, bait=(i % 3 == 0), inline=(i % 2 == 1), signed=False, shorts=(i % 2 == 0), max_stmts=8)) for i in range(n_prog)}
     viol = []
     stats = {'agree': 0, 'undecided': 0, 'unsupported': 0, 'programs': 0, 'events': 0}
     marked_bad = []
